@@ -661,6 +661,10 @@ func (env *vfC14Env) replyExecute(h *vfC14Held) (kind string) {
 type vfC14Item struct {
 	S string `json:"s"`
 	N int    `json:"n"`
+	// Via: how the statement enters the query / batch. "" or "args": Session.Query(stmt, args...) /
+	// Batch.Query(stmt, args...); "bind": a binding callback (Session.Bind / Batch.Bind), which receives the
+	// prepared metadata; "qbind" (queries only): Session.Query(stmt).Bind(args...).
+	Via string `json:"via"`
 }
 
 type vfC14ExecSpec struct {
@@ -668,6 +672,7 @@ type vfC14ExecSpec struct {
 	Kind   string      `json:"kind"` // query | batch
 	Items  []vfC14Item `json:"items"`
 	Conn   []string    `json:"conn"` // pinned (host, keyspace), or empty
+	TokLast bool       `json:"toklast"` // batches: the unprepared token entry comes last instead of first
 	Cancel time.Duration `json:"-"`  // > 0: cancel the context after this delay
 }
 
@@ -706,7 +711,15 @@ func (env *vfC14Env) runExec(sp vfC14ExecSpec) {
 	for _, it := range sp.Items {
 		items = append(items, map[string]interface{}{"s": it.S, "n": it.N})
 	}
-	env.tr.Emit("start", "e", sp.E, "kind", sp.Kind, "items", items)
+	vias := make([]string, 0, len(sp.Items))
+	for _, it := range sp.Items {
+		v := it.Via
+		if v == "" {
+			v = "args"
+		}
+		vias = append(vias, v)
+	}
+	env.tr.Emit("start", "e", sp.E, "kind", sp.Kind, "items", items, "vias", vias, "toklast", sp.TokLast)
 	if sp.Cancel > 0 {
 		t := time.AfterFunc(sp.Cancel, func() {
 			env.tr.Emit("e_cancel", "e", sp.E)
@@ -756,11 +769,30 @@ func (env *vfC14Env) execute(ctx context.Context, sp vfC14ExecSpec) (cls string,
 			return "env", meta, "no such pinned connection"
 		}
 	}
+	// binder returns a binding callback that hands over the values and logs the metadata it was given
+	binder := func(it vfC14Item) func(q *QueryInfo) ([]interface{}, error) {
+		args := vfC14Args(sp.E, it.N)
+		return func(qi *QueryInfo) ([]interface{}, error) {
+			id, ok := vfC14ParseID(qi.Id)
+			env.tr.Emit("e_bound", "e", sp.E, "s", it.S, "id", id.json(), "idok", ok, "nargs", len(qi.Args))
+			return args, nil
+		}
+	}
 	if sp.Kind == "batch" {
 		b := env.sess.NewBatch(LoggedBatch).WithContext(ctx)
-		b.Query(fmt.Sprintf("INSERT INTO vftok (e) VALUES (%d)", sp.E))
+		tok := fmt.Sprintf("INSERT INTO vftok (e) VALUES (%d)", sp.E) // no values: goes out unprepared
+		if !sp.TokLast {
+			b.Query(tok)
+		}
 		for _, it := range sp.Items {
-			b.Query(vfC14StmtByName(it.S).Text, vfC14Args(sp.E, it.N)...)
+			if it.Via == "bind" {
+				b.Bind(vfC14StmtByName(it.S).Text, binder(it))
+			} else {
+				b.Query(vfC14StmtByName(it.S).Text, vfC14Args(sp.E, it.N)...)
+			}
+		}
+		if sp.TokLast {
+			b.Query(tok)
 		}
 		var err error
 		if pin != nil {
@@ -775,7 +807,15 @@ func (env *vfC14Env) execute(ctx context.Context, sp vfC14ExecSpec) (cls string,
 		return cls, meta, detail
 	}
 	it := sp.Items[0]
-	q := env.sess.Query(vfC14StmtByName(it.S).Text, vfC14Args(sp.E, it.N)...).WithContext(ctx)
+	var q *Query
+	switch it.Via {
+	case "bind":
+		q = env.sess.Bind(vfC14StmtByName(it.S).Text, binder(it)).WithContext(ctx)
+	case "qbind":
+		q = env.sess.Query(vfC14StmtByName(it.S).Text).Bind(vfC14Args(sp.E, it.N)...).WithContext(ctx)
+	default:
+		q = env.sess.Query(vfC14StmtByName(it.S).Text, vfC14Args(sp.E, it.N)...).WithContext(ctx)
+	}
 	if pin != nil {
 		q.conn = pin
 	}
@@ -798,7 +838,7 @@ func (env *vfC14Env) execute(ctx context.Context, sp vfC14ExecSpec) (cls string,
 // vfC14Mine reports whether a tracer event belongs to the C14 vocabulary.
 func vfC14Mine(ev string) bool {
 	switch ev {
-	case "start", "e_end", "e_cancel", "e_hang", "x_send", "end":
+	case "start", "e_end", "e_cancel", "e_hang", "e_bound", "x_send", "end":
 		return true
 	}
 	return strings.HasPrefix(ev, "c_") && (ev == "c_hit" || ev == "c_miss" || ev == "c_remove" || ev == "c_evict" || ev == "c_gone") ||
